@@ -224,7 +224,13 @@ class Portfolio(IncrementalTrackingSolver):
     def _close_existing(self):
         _debug("Closing resources..")
         if self._ctrl_pipe :
-            self._ctrl_pipe.send("exit")
+            try:
+                self._ctrl_pipe.send("exit")
+            except OSError:
+                # Nobody is left on the other side of the pipe
+                # (e.g., the last call to solve() ended with an
+                # exception and no solver was kept): nothing to close
+                pass
             self._ctrl_pipe = None
         if self._ext_solver and self._ext_solver.is_alive():
             self._ext_solver.terminate()
